@@ -267,8 +267,64 @@ def run_addkey(i):
     return i, out
 
 
+def keyfile_case(args):
+    """The key written to a file must be exactly the key, whatever was at that path before."""
+    cmd, pre = args
+    sc = H.worker_scratch()
+    root = sc.sub()
+    path = root / 'sub' / 'the.key'
+    path.parent.mkdir(parents=True)
+    if pre == 'longer':
+        path.write_bytes(b'{"old": "' + b'k' * 6000 + b'"}')
+    elif pre == 'shorter':
+        path.write_bytes(b'{}')
+    st = W.Store()
+    W.set_random('c17-kf')
+    vs = []
+    sig0 = {'section': 'key-file', 'deviation': f'{cmd} over {pre} file'}
+
+    async def go():
+        repo = W.make_repo(st, N=2)
+        with W.captured():
+            if cmd == 'init':
+                r = await repo.init(password=b'pw0', settings=copy.deepcopy(DEFAULT), key_output_path=path)
+                key, pw = r.key, b'pw0'
+            else:
+                r0 = await repo.init(password=b'pw0', settings=copy.deepcopy(DEFAULT))
+                r = await repo.add_key(password=b'pw-new', shared=(cmd == 'add-key-shared'), key_output_path=path,
+                                       settings={'encryption': {'kdf': {'name': 'scrypt', 'n': 4, 'r': 1}}})
+                key, pw = r.new_key, b'pw-new'
+            await repo.close()
+        return repo.serialize(key), pw
+
+    try:
+        want, pw = W.run(go)
+    except Exception as e:
+        shutil.rmtree(root, ignore_errors=True)
+        return [(dict(sig0, outcome='command-failed'), {'deviations': [sig0['deviation']], 'detail': repr(e)[:200]})]
+    got = path.read_bytes() if path.exists() else None
+    if got != want:
+        vs.append((dict(sig0, outcome='key-file-is-not-the-key'),
+                   {'deviations': [sig0['deviation']], 'detail': f'file has {None if got is None else len(got)} bytes, key has {len(want)}'}))
+    else:
+        async def use():
+            repo = W.make_repo(st, N=2)
+            with W.captured():
+                await repo.unlock(password=pw, key=got)
+                await repo.close()
+        try:
+            W.run(use)
+        except Exception as e:
+            vs.append((dict(sig0, outcome='accepted-but-unusable'), {'deviations': [sig0['deviation']], 'detail': repr(e)[:200]}))
+    shutil.rmtree(root, ignore_errors=True)
+    return vs
+
+
 def replay(case):
     labels = case['deviations']
+    if labels and ' over ' in labels[0] and labels[0].split(' over ')[0] in ('init', 'add-key-shared', 'add-key-independent'):
+        cmd, pre = labels[0].split(' over ')
+        return {'violations': [v[0] for v in keyfile_case((cmd, pre.replace(' file', '')))]}
     idxs = tuple(i for i, v in enumerate(VARIANTS) if f'{v[0]}:{v[1]}' in labels)
     _, accepted, problem = run_case(idxs)
     return {'violations': [problem[0]] if problem else [], 'accepted': accepted, 'problem': problem}
@@ -336,6 +392,11 @@ def main():
         for label, shared, problem in out:
             chk.violation({'section': 'add-key', 'deviation': label, 'outcome': problem[0]},
                           {'deviations': ['add-key:' + label], 'shared': shared, 'detail': problem[1]})
+    kcases = [(c, pre) for c in ('init', 'add-key-shared', 'add-key-independent') for pre in ('absent', 'shorter', 'longer')]
+    for vs in common.pmap(keyfile_case, kcases, ordered=False):
+        nak += 1
+        for sig, d in vs:
+            chk.violation(sig, d)
     chk.sample({'deviations': ['hashing:blake2b(length=65)'], 'then': 'init; fresh unlock; snapshot; restore'})
     chk.sample({'deviations': ['chunking:gclmulchunker(5,10)', 'cipher:aes_gcm(key_bits=192)']})
     chk.coverage.update({
